@@ -104,7 +104,12 @@ def T_user_lmi(rng, v=0):
         # upper entry  t/2 + <.,.>/2 ,  lower entry  t/2 + <.,.>/2  written differently: symmetric as a function, not as text
     if (v // 2) % 2 == 0:
         f.add_psd_matrix([[1, (x1 - xs) * g0], [(x1 - xs) * g0, L * L * 4]])
-    m = p.add_psd_matrix(mat)
+    if (v // 4) % 2 == 1:
+        # the binding LMI (constant entry 1) is attached to the function, not to the problem
+        f.add_psd_matrix(mat)
+        m = f.list_of_psd[-1]
+    else:
+        m = p.add_psd_matrix(mat)
     p.add_constraint(t <= 2)
     p.set_performance_metric(t)
     return p, dict(points=[x0, x1, xs], exprs=[t, a], funcs=[f], lmis=[m], symmetric_as_written=sym)
